@@ -8,6 +8,11 @@ integer remainder (`tmodC`), `rand.Int63n` / `rand.Intn` (`intnC`), type asserti
 
 Core Lean only (linked into the `model-C13` executable).
 -/
+namespace Pandora.Go
+/-- makes `open Pandora Pandora.Go` (written by the translator /verif/gen into `Gen/C13Src.lean`) resolve without Mathlib -/
+def c13NamespaceAnchor : Unit := ()
+end Pandora.Go
+
 namespace Pandora.Model.C13
 
 abbrev Bytes := List UInt8
